@@ -71,7 +71,9 @@ func (fr *Frame) expr(st *State, e ast.Expr) Val {
 		fr.sliceBoundsCheck(st, n, b, lo, hi)
 		r := x.sliceVal(st, b, lo, hi)
 		r.Ty = fr.typeOf(e)
-		return x.bind(r, "sl")
+		r = x.bind(r, "sl")
+		fr.sliceFmt(b, lo, hi, r)
+		return r
 	case *ast.StarExpr:
 		p := fr.expr(st, n.X)
 		fr.safety(st, "nil-deref", fr.src(n.X), n, "(not (= "+p.T+" 0))")
@@ -426,7 +428,21 @@ func (fr *Frame) binary(st *State, n *ast.BinaryExpr) Val {
 			x.need("strcat")
 			return x.bind(Val{T: "(strcat " + a.T + " " + b.T + ")", S: "GoString", Ty: rt}, "cat")
 		}
-		return x.bind(Val{T: wrapTo("(+ "+a.T+" "+b.T+")", rt), S: a.S, Ty: rt}, "add")
+		r := x.bind(Val{T: wrapTo("(+ "+a.T+" "+b.T+")", rt), S: a.S, Ty: rt}, "add")
+		if p, ok := x.posOf[a.T]; ok {
+			if d, ok := constInt(b.T); ok {
+				if np, ok := p.shift(int(d)); ok {
+					// keep the result a named term so that the position survives
+					if r.T == wrapTo("(+ "+a.T+" "+b.T+")", rt) {
+						n := x.u.fresh("pos", "Int")
+						x.u.fact("(= " + n + " " + r.T + ")")
+						r = Val{T: n, S: r.S, Ty: r.Ty}
+					}
+					x.setPos(r.T, np)
+				}
+			}
+		}
+		return r
 	case token.SUB:
 		return x.bind(Val{T: wrapTo("(- "+a.T+" "+b.T+")", rt), S: a.S, Ty: rt}, "sub")
 	case token.MUL:
@@ -579,7 +595,11 @@ func (fr *Frame) convert(st *State, n *ast.CallExpr, to types.Type) Val {
 		return Val{T: v.T, S: v.S, Ty: to}
 	case ts == "GoString" && strings.HasPrefix(v.S, "Slice_"):
 		x.need("bytes2str")
-		return x.bind(Val{T: "(bytes2str " + v.T + ")", S: "GoString", Ty: to}, "s")
+		r := x.bind(Val{T: "(bytes2str " + v.T + ")", S: "GoString", Ty: to}, "s")
+		if f, ok := x.fmtOf[v.T]; ok {
+			x.setFmt(r.T, f)
+		}
+		return r
 	case strings.HasPrefix(ts, "Slice_") && v.S == "GoString" && !isByte(elemType(to)):
 		// []rune(s): one element per code point - at most one per byte
 		r := x.havocVal("runes", to)
@@ -588,6 +608,9 @@ func (fr *Frame) convert(st *State, n *ast.CallExpr, to types.Type) Val {
 	case strings.HasPrefix(ts, "Slice_") && v.S == "GoString":
 		x.need("str2bytes")
 		r := x.bind(Val{T: "(str2bytes " + v.T + ")", S: ts, Ty: to}, "bs")
+		if f, ok := x.fmtOf[v.T]; ok {
+			x.setFmt(r.T, f)
+		}
 		return r
 	case ts == "Real" && v.S == "Int":
 		return Val{T: "(to_real " + v.T + ")", S: "Real", Ty: to}
